@@ -190,8 +190,16 @@ class Store:
         ds = self.client.ds.get(self.name)
         return MISSING if ds is None else copy.deepcopy(ds.v[0])
 
-    def write(self, value):
-        """Out-of-band write."""
+    def write(self, value, stealth=False):
+        """Out-of-band write.  stealth: keep the file's size and timestamps exactly (another content of the same length)."""
+        if self.family == "json" and stealth:
+            st = os.stat(self.path)
+            blob = json.dumps(value).encode()
+            assert len(blob) == st.st_size
+            with open(self.path, "wb") as f:
+                f.write(blob)
+            os.utime(self.path, ns=(st.st_atime_ns, st.st_mtime_ns))
+            return
         if self.family == "json":
             with open(self.path, "wb") as f:
                 f.write(json.dumps(value).encode())
@@ -568,6 +576,24 @@ def jsonable(v):
     if isinstance(v, (str, int, float, bool)) or v is None:
         return v
     return repr(v)
+
+
+def reset_buffer_class(cls, capacity=None):
+    """Put a buffered class back into its pristine state between harness cases WITHOUT relying on how the context object
+    keeps its bookkeeping (a refactor of those private attributes must not crash the harness): the context object is
+    re-initialised by its own constructor."""
+    if not hasattr(cls, "_buffer"):
+        return
+    cls._buffer.clear()
+    cls._buffered_collections.clear()
+    cls._CURRENT_BUFFER_SIZE = 0
+    if capacity is not None:
+        cls._BUFFER_CAPACITY = capacity
+    ctx = cls._buffer_context
+    try:
+        type(ctx).__init__(ctx, cls)
+    except Exception:  # noqa
+        ctx._count = 0
 
 
 # ------------------------------------------------------------------------------------------ hang watchdog
